@@ -123,33 +123,193 @@ def shrink_ops(case):
         yield head + "(ops " + " ".join(ops[:i] + ops[i + 1:]) + "))"
 
 
+
+# ---------------------------------------------------------------------------------------------------------------
+# exact arithmetic on doubles given as bit patterns (for contract predicates evaluated on the implementation's output)
+from fractions import Fraction
+
+
+def bits_to_fraction(bits):
+    """exact value of a finite double, None for NaN / Inf"""
+    sign = -1 if bits >> 63 else 1
+    e = (bits >> 52) & 0x7FF
+    f = bits & ((1 << 52) - 1)
+    if e == 2047:
+        return None
+    if e == 0:
+        return sign * Fraction(f, 1 << 1074)
+    m = f + (1 << 52)
+    return sign * (Fraction(m) * Fraction(2) ** (e - 1075))
+
+
+def probe_values(obs):
+    """typed values received by the host function `probe`, in order, over the whole trace"""
+    vals = []
+    for o in obs:
+        d = parse_run(o)
+        for entry in d["log"].split(";"):
+            m = re.match(r"^probe\((.*)\)$", entry)
+            if m:
+                vals.append(m.group(1))
+    return vals
+
+
+def numeric_contracts(obs, case):
+    """C19 evaluated on the implementation's own results, in exact rational arithmetic"""
+    m = re.search(r"\(expect(.*?)\) \(ops", case)
+    if not m:
+        return None
+    expects = re.findall(r"\((\w+) (\d+)(?: (\d+))?\)", m.group(1))
+    vals = probe_values(obs)
+    for i, (fn, bits, extra) in enumerate(expects):
+        if i >= len(vals):
+            return f"probe call {i} ({fn}) never reached the host"
+        x = bits_to_fraction(int(bits))
+        got = vals[i]
+        if x is None or abs(x) >= 2 ** 52:
+            continue  # outside the quantifier of the property
+        def num():
+            mm = re.match(r"^N:(\d+)$", got)
+            return bits_to_fraction(int(mm.group(1))) if mm else None
+        y = num()
+        bad = lambda why: f"{fn}({float(x)!r} bits {bits}{' ,' + extra if extra else ''}) = {got}: {why}"
+        if fn in ("floor", "ceil", "inc", "dec", "integer", "decimal", "round", "round_places", "number", "numstr", "intplusdec") and y is None:
+            return bad("not a finite number")
+        if fn == "floor" and not (y.denominator == 1 and y <= x < y + 1):
+            return bad("violates floor(x) <= x < floor(x)+1")
+        if fn == "ceil" and not (y.denominator == 1 and y - 1 < x <= y):
+            return bad("violates ceil(x)-1 < x <= ceil(x)")
+        if fn == "inc" and not (y.denominator == 1 and y > x and y - 1 <= x):
+            return bad("is not the least integer greater than x")
+        if fn == "dec" and not (y.denominator == 1 and y < x and y + 1 >= x):
+            return bad("is not the greatest integer less than x")
+        if fn == "integer" and not (y.denominator == 1 and abs(y) <= abs(x) < abs(y) + 1 and y * x >= 0):
+            return bad("does not truncate toward zero")
+        if fn == "intplusdec" and y != x:
+            return bad("integer(x)+decimal(x) differs from x")
+        if fn == "round" and not (y.denominator == 1 and abs(y - x) <= Fraction(1, 2)):
+            return bad("is not an integer within 0.5 of x")
+        if fn == "round_places":
+            n = int(extra)
+            unit = Fraction(1, 10 ** n)
+            slack = Fraction(1, 2 ** 51) * max(abs(x), unit)
+            if abs(y - x) > unit / 2 + slack:
+                return bad("is not within half a unit of the n-th decimal place (plus the representation slack of DESIGN C19.5)")
+        if fn in ("number", "numstr") and y != x:
+            return bad("differs from x")
+        if fn == "string" and not got.startswith("S:"):
+            return bad("is not a string")
+    return None
+
+
+def snapshots_immutable(obs, case):
+    """C07 on the implementation's own trace: every re-observation of a snapshot equals what it showed when taken"""
+    ops = re.findall(r"\((next|snap|resnap|restore|restorebad|hset|complete|new) (\d+)", case.split("(ops", 1)[-1])
+    snaps = []
+    for i, (op, j) in enumerate(ops):
+        if i + 1 >= len(obs):
+            break
+        o = obs[i + 1]
+        if op == "snap" and o.startswith("SNAP"):
+            snaps.append(o)
+        elif op == "resnap" and o.startswith("SNAP"):
+            k = int(j)
+            if k < len(snaps) and snaps[k] != o:
+                return f"snapshot {k} changed after it was taken: was {snaps[k][:120]} now {o[:120]}"
+    return None
+
+
+def both(*preds):
+    def f(obs, case):
+        for p in preds:
+            m = p(obs, case)
+            if m:
+                return m
+        return None
+    return f
+
+
+def special_rerun(prop, sc, tier, seed, harness, repo):
+    """C09 determinism: the same cases in reverse order in a second, fresh process must give the same observations per case
+    (whatever ran before, same or different process)."""
+    import subprocess
+    n = sc["thorough"] if tier == "thorough" else sc["quick"]
+    r = subprocess.run([harness, "gen", sc["stream"], sc["profile"], str(seed), str(n)], capture_output=True, text=True)
+    lines = [l for l in r.stdout.split("\n") if l]
+    def run_lines(ls):
+        out = subprocess.run([harness, "run"], input="\n".join(ls) + "\n", capture_output=True, text=True, timeout=900).stdout
+        obs = {}
+        for line in out.split("\n"):
+            p = line.split("\t")
+            if len(p) == 3:
+                obs.setdefault(p[0], []).append(p[2])
+        return obs
+    a = run_lines(lines)
+    b = run_lines(list(reversed(lines)))
+    failures = []
+    agree = 0
+    for line in lines:
+        cid = re.match(r"\(case \S+ (\S+)", line).group(1)
+        if a.get(cid) != b.get(cid):
+            failures.append({"case": line, "kind": "two executions of the same case (different process, different history) differ", "impl": a.get(cid, []), "model": b.get(cid, []), "concrete": True})
+        else:
+            agree += 1
+    return {"stats": {"cases": len(lines), "agree": agree, "distinct_nontrivial": len({l.split(' ', 3)[-1] for l in lines})}, "failures": failures[:3],
+            "samples": []}
+
 CLASSIFIERS = {}
 
 RUN_ASSUME = ["generated programs are Productive (every node starts with a line, so no jump cycle without a yielding statement)",
               "errors are compared as a class, never by message", "choices are kept in range while a choice is expected"]
 
+def runprop(profile, fields, elem_fields, quick, thorough, predicate=no_panic, nontrivial=None, extra_streams=(), **kw):
+    d = {
+        "level": "proof",
+        "streams": [{"stream": "run", "profile": profile, "quick": quick, "thorough": thorough,
+                     "project": project_run(fields, elem_fields), "predicate": predicate,
+                     "nontrivial": nontrivial or run_nontrivial(2, ()), "shrink": shrink_ops}] + list(extra_streams),
+        "assumptions": RUN_ASSUME,
+    }
+    d.update(kw)
+    return d
+
+
 PROPERTIES = {
-    "C01": {
-        "level": "proof",
-        "streams": [
-            {"stream": "run", "profile": "flow", "quick": 1500, "thorough": 60000,
-             "project": project_run(("res",), ("text", "dis")), "predicate": no_panic,
-             "nontrivial": run_nontrivial(3, ("O",)), "shrink": shrink_ops},
-        ],
-        "assumptions": RUN_ASSUME,
-        "rule": "run/flow: random 1-4 node programs (nested options, if/elseif/else, set/declare, jumps by name and expression, stop, call, commands) x random in-range choices; non-trivial = at least 3 elements shown incl. an option group; distinct by hash of the case payload",
-        "leanchecker": ["Ysgo.Props.C01"],
-    },
-    "C12": {
-        "level": "proof",
-        "streams": [
-            {"stream": "run", "profile": "end", "quick": 1500, "thorough": 60000,
-             "project": project_run(("res", "log", "v"), ("text", "dis")), "predicate": after_end_absorbing,
-             "nontrivial": lambda obs, case: sum(1 for o in obs if obs_kind(o) == "END") >= 2 and any(obs_kind(o) in ("L", "O") for o in obs),
-             "shrink": shrink_ops},
-        ],
-        "assumptions": RUN_ASSUME,
-        "rule": "run/end: programs biased to reach an end (node end, <<stop>> at depth 0-3 with trailing statements, option group last) followed by further Next calls with arbitrary arguments; non-trivial = an element shown and at least two END results",
-        "leanchecker": ["Ysgo.Props.C12"],
-    },
+    "C01": runprop("flow", ("res",), ("text", "dis"), 1500, 60000, nontrivial=run_nontrivial(3, ("O",)),
+                   rule="run/flow: random 1-4 node programs (nested options, if/elseif/else, set/declare, jumps by name and expression, stop, call, commands) x random in-range choices; non-trivial = at least 3 elements shown incl. an option group; distinct by hash of the case payload",
+                   leanchecker=["Ysgo.Props.C01"]),
+    "C02": runprop("expr", ("res", "log"), ("text",), 1500, 60000, nontrivial=lambda obs, case: any("probe(" in o for o in obs),
+                   rule="run/expr: expression trees of depth <= 5 over literals of the three types, variables, built-ins and logging probe functions, embedded in lines, conditions, assignments and calls; compared: rendered value or error, and the probe log (order and count of evaluations); non-trivial = at least one probe invocation observed",
+                   leanchecker=["Ysgo.Props.C02"]),
+    "C03": runprop("vars", ("res", "v"), ("text",), 1500, 60000, nontrivial=lambda obs, case: sum(1 for o in obs if obs_kind(o) == "HSET") >= 1 and len({parse_run(o)["v"] for o in obs}) >= 3,
+                   rule="run/vars: set/declare statements with every assignment operator over every pair of (current type or unset, assigned type), interleaved with host writes of same and other types; compared: result class and the complete variable contents after every operation; non-trivial = a host write and at least 3 distinct store contents",
+                   leanchecker=["Ysgo.Props.C03"]),
+    "C06": runprop("faults", (), (), 2000, 80000, nontrivial=lambda obs, case: sum(1 for o in obs if obs_kind(o) == "ERR") >= 2 and any(obs_kind(o) in ("L", "O") for o in obs),
+                   rule="run/faults: valid scripts in which every expression position holds a faulty expression with probability 1/2 (ill-typed operations, unknown names, null, value-less functions, dice(0), inverted ranges, NaN/Inf arguments); compared: result class only; predicate: no panic; non-trivial = at least two errors and an element after which the runner was still usable",
+                   leanchecker=["Ysgo.Props.C06"]),
+    "C07": runprop("snap", ("res", "v", "vis"), ("text", "dis"), 1200, 50000, predicate=both(no_panic, snapshots_immutable),
+                   nontrivial=lambda obs, case: any(o.startswith("RESTORE OK") for o in obs) and sum(1 for o in obs if o.startswith("SNAP")) >= 2,
+                   rule="run/snap: multi-node programs; histories over 1-3 runners of the same script mixing next, snapshot, restore into any runner in any state (mid-node, waiting for a choice, command pending, ended), host writes, and re-observation of every snapshot taken so far; compared: everything; predicate: a snapshot never changes after it was taken; non-trivial = a successful restore and at least two snapshots",
+                   leanchecker=["Ysgo.Props.C07"]),
+    "C09": runprop("rand", ("res", "v"), ("text", "dis"), 1200, 50000, nontrivial=lambda obs, case: True,
+                   extra_streams=[{"stream": "run", "profile": "rand", "quick": 400, "thorough": 8000, "special": special_rerun}],
+                   rule="run/rand: programs rendering dice, random and random_range in lines, conditions and assignments over several seeds; the implementation must reproduce the pure model's random values bit for bit; plus the same cases re-executed in reverse order in a second process must give identical observations",
+                   leanchecker=["Ysgo.Props.C09"]),
+    "C10": runprop("cmds", ("res", "log"), ("text",), 1200, 50000,
+                   nontrivial=lambda obs, case: any(obs_kind(o) == "WAIT" for o in obs) and any(o.startswith("DONE") for o in obs),
+                   rule="run/cmds: scripts with commands that complete on return, fail on return, or stay pending until the harness completes them with success or an error after any number of polls; compared: result class and the handler invocation log; non-trivial = a waiting answer and a later completion",
+                   leanchecker=["Ysgo.Props.C10"]),
+    "C11": runprop("visits", ("res", "vis"), ("text",), 1200, 50000,
+                   nontrivial=lambda obs, case: len({parse_run(o)["vis"] for o in obs}) >= 3,
+                   rule="run/visits: jump graphs with self-loops, cycles, jumps out of nested bodies and by expression, nodes marked tracking never/always, visit counters rendered in lines, snapshots and restores; compared: elements and the visit-count map after every operation; non-trivial = at least 3 distinct counter maps",
+                   leanchecker=["Ysgo.Props.C11"]),
+    "C12": runprop("end", ("res", "log", "v"), ("text", "dis"), 1500, 60000, predicate=both(no_panic, after_end_absorbing),
+                   nontrivial=lambda obs, case: sum(1 for o in obs if obs_kind(o) == "END") >= 2 and any(obs_kind(o) in ("L", "O") for o in obs),
+                   rule="run/end: programs biased to reach an end (node end, <<stop>> at depth 0-3 with trailing statements, option group last) followed by further Next calls with arbitrary arguments; non-trivial = an element shown and at least two END results",
+                   leanchecker=["Ysgo.Props.C12"]),
+    "C19": runprop("numeric", ("res", "log"), ("text",), 1500, 60000, predicate=both(no_panic, numeric_contracts),
+                   nontrivial=lambda obs, case: len(probe_values(obs)) >= 5,
+                   extra_streams=[{"stream": "f64", "profile": "all", "quick": 20000, "thorough": 1000000, "nontrivial": lambda obs, case: True}],
+                   rule="run/numeric: every numeric and conversion built-in applied, through a script, to doubles |x| < 2^52 supplied through the storer (random bit patterns, integers, half-way cases, neighbours of integers, signed zeros, subnormals; n in 0..8) and captured by a host function; the contracts of the property are evaluated on the implementation's results in exact rational arithmetic; f64/all: the softfloat model against the compiler's arithmetic, bit for bit",
+                   leanchecker=["Ysgo.Props.C19"], trusted=["python fractions for the contract predicates"]),
 }
